@@ -79,10 +79,17 @@ def regstress_phase(run, tier, wd, binary):
         json.dump(dict(rounds=rounds, g=g, per=per, seed=run.seed), open(os.path.join(sd, "in.json"), "w"))
         p = vlib.run_harness(binary, ["regstress", "-in", "in.json", "-out", "rs%d.ndjson" % i], cwd=sd, timeout=900)
         if p.returncode != 0:
+            m = re.search(r"fatal error: [^\n]*", p.stderr)
+            if m and "github.com/go-kid/ioc/" in p.stderr:
+                # the Go runtime stopped the process inside the library's containers (concurrent map access, unlock of an
+                # unlocked mutex, ...): that IS what the real registry did under concurrent use
+                run.violation("real definition registry, free-running history of %d goroutines: the process died with '%s' inside go-kid/ioc" % (g, m.group(0)),
+                              dict(kind="regstress", goroutines=g, per=per, fatal=m.group(0), stack=p.stderr[:3000]))
+                return
             raise vlib.Infra("regstress failed: " + p.stderr[-800:])
         groups = el.split_trace(os.path.join(sd, "rs%d.ndjson" % i), marker='"a":"hist"')
         st, fails = el.validate_groups(sd, groups, "TraceRegHist", {}, ["M_C10_NoLostDefinition", "M_C20_NoPhantomDefinition",
-                                                                         "M_C20_LookupFindsRegistered", "M_C20_OneWinnerPerName"], [], "rh%d" % i,
+                                                                         "M_C20_LookupFindsRegistered", "M_C20_OneWinnerPerName", "M_C20_RegistryReturns"], [], "rh%d" % i,
                                        spec="MonitorSpec", max_failures=3)
         run.cov["states"] += st["states"]
         run.cov["transitions"] += st["generated"]
